@@ -61,8 +61,10 @@ type e2eCase struct {
 	Missing  []int    `json:"missing"`   // indices (into the expanded interface list) of interfaces that do not exist
 	PortBusy bool     `json:"port_busy"` // the debug address is already in use: the HTTP task fails
 	Prom     bool     `json:"prometheus"`
-	Restart  bool     `json:"restart"` // run the same configuration twice (the epoch is the start of each process)
-	Early    bool     `json:"early"`   // the signal arrives while main() is still between signal.Notify and Serve
+	Restart  bool     `json:"restart"`        // run the same configuration twice (the epoch is the start of each process)
+	Early    bool     `json:"early"`          // the signal arrives while main() is still between signal.Notify and Serve
+	FailIdx  int      `json:"fail_interface"` // >0: the (FailIdx-1)-th advertising/monitoring interface hits a fatal receive error FailMS after it came up; no signal is sent
+	FailMS   int      `json:"fail_after_ms"`
 }
 
 type e2eProbe struct {
@@ -82,6 +84,7 @@ type e2eRun struct {
 	Metrics                   e2eProbe
 	ReadyNote                 bool   // READY=1 seen before the signal was sent
 	Hung                      string // non-empty: the process had to be killed (why)
+	FailIface                 string // the interface whose task fails by itself (fail mode)
 	Ifaces                    []rIface
 	World                     system.VkWorld
 }
@@ -141,6 +144,7 @@ func e2eExecute(c e2eCase, cfg rConfig) (*e2eRun, error) {
 		missing[m] = true
 	}
 	w := system.VkWorld{Log: filepath.Join(dir, "events.jsonl"), Ifaces: map[string]system.VkIface{}}
+	tasks := 0
 	for i, ri := range cfg.Interfaces {
 		if missing[i] {
 			continue
@@ -149,6 +153,13 @@ func e2eExecute(c e2eCase, cfg rConfig) (*e2eRun, error) {
 		vi := system.VkIface{Index: 10 + i, MAC: st.MAC, Forwarding: st.Fwd, Autoconf: i%2 == 0, Addrs: st.Addrs}
 		if c.Solicit && ri.Advertise {
 			vi.RS = []system.VkRS{{AfterMS: 20, From: "fe80::bad", Hop: 64}, {AfterMS: 30, From: "fe80::abc", Hop: 255}}
+		}
+		if c.FailIdx > 0 && (ri.Advertise || ri.Monitor) {
+			tasks++
+			if tasks == c.FailIdx {
+				vi.ReadErrAfterMS = c.FailMS
+				run.FailIface = ri.Name
+			}
 		}
 		w.Ifaces[ri.Name] = vi
 	}
@@ -361,6 +372,18 @@ func e2eExecute(c e2eCase, cfg rConfig) (*e2eRun, error) {
 		time.Sleep(time.Duration(c.WaitMS) * time.Millisecond)
 	}
 	run.ReadyNote = readySeen()
+	if run.FailIface != "" {
+		// no signal: the failing task must take the whole server down
+		select {
+		case werr := <-exited:
+			finish(werr)
+		case <-time.After(e2eBudget):
+			kill()
+			finish(nil)
+			run.Hung = fmt.Sprintf("the task of %q failed with a fatal receive error, yet the process was still running %v later", run.FailIface, e2eBudget)
+		}
+		return run, nil
+	}
 	sig := map[string]syscall.Signal{"TERM": syscall.SIGTERM, "INT": syscall.SIGINT, "HUP": syscall.SIGHUP}[c.Sig]
 	run.SigAt = time.Now()
 	if err := cmd.Process.Signal(sig); err != nil {
@@ -650,6 +673,11 @@ func oracleC20(c e2eCase, run *e2eRun) error {
 		if run.ExitCode != 1 || !strings.Contains(run.Stderr, "failed to run") {
 			return verifkit.Violf("C20main/task-failure-not-reported", "the debug listener could not be started, but the process exited with code %d\n%s", run.ExitCode, d())
 		}
+	} else if run.FailIface != "" {
+		// one task failed with an unrecoverable error: all tasks stop and the failure is reported
+		if run.ExitCode != 1 || !strings.Contains(run.Stderr, "failed to run") {
+			return verifkit.Violf("C20main/task-failure-not-reported", "the task of %q failed fatally, but the process exited with code %d %s\n%s", run.FailIface, run.ExitCode, run.ExitSignal, d())
+		}
 	} else if run.ExitCode != 0 || run.ExitSignal != "" {
 		return verifkit.Violf("C20main/exit-status", "SIG%s must stop the server cleanly, exit code %d signal %q\n%s", c.Sig, run.ExitCode, run.ExitSignal, d())
 	}
@@ -714,7 +742,7 @@ func oracleC20(c e2eCase, run *e2eRun) error {
 
 // oracleC08: the final advertisement.
 func oracleC08(c e2eCase, run *e2eRun) error {
-	if c.PortBusy || c.Early || run.Hung != "" {
+	if c.PortBusy || c.Early || run.Hung != "" || run.FailIface != "" {
 		return nil
 	}
 	missing := map[int]bool{}
@@ -733,11 +761,28 @@ func oracleC08(c e2eCase, run *e2eRun) error {
 			if err != nil {
 				return verifkit.Violf("C08main/undecodable", "interface %q: %v\n%s", ri.Name, err, e2eDesc(c, run))
 			}
+			if e.Ev == "write-after-close" {
+				return verifkit.Violf("C08main/transmits-after-close", "interface %q: an RA was written after its connection had been closed\n%s", ri.Name, e2eDesc(c, run))
+			}
 			if ra.RouterLifetime == 0 {
 				zero++
 				lastZero = j == len(ws)-1
 				if e.Dst != "ff02::1" {
 					return verifkit.Violf("C08main/final-ra-destination", "interface %q: zero-lifetime RA sent to %s\n%s", ri.Name, e.Dst, e2eDesc(c, run))
+				}
+				// identical to the normal RA except for the router lifetime
+				var openAt time.Time
+				for _, o := range run.Events {
+					if o.Ev == "open" && o.Iface == ri.Name {
+						openAt = time.Unix(0, o.TNS)
+						break
+					}
+				}
+				if lo, hi, fails := e2eExpect(c, run, i, openAt, time.Unix(0, e.TNS)); !fails {
+					lo.RouterLifetime, hi.RouterLifetime = 0, 0
+					if err := e2eCompare("C08main/final-ra-content", fmt.Sprintf("final RA on %q", ri.Name), lo, hi, e2eRAItems(ra), false); err != nil {
+						return fmt.Errorf("%w\n%s", err, e2eDesc(c, run))
+					}
 				}
 			}
 		}
@@ -762,7 +807,7 @@ func oracleC17(c e2eCase, run *e2eRun) error { return e2eRAOracle(c, run, "C17ma
 func oracleC16(c e2eCase, run *e2eRun) error { return e2eRAOracle(c, run, "C16main", false) }
 
 func e2eRAOracle(c e2eCase, run *e2eRun, pfx string, full bool) error {
-	if c.PortBusy || c.Early || len(c.Missing) > 0 || run.Hung != "" {
+	if c.PortBusy || c.Early || len(c.Missing) > 0 || run.Hung != "" || run.FailIface != "" {
 		return nil
 	}
 	d := func() string { return e2eDesc(c, run) }
@@ -1071,6 +1116,11 @@ func e2eGen(forC16 bool) func(t *rapid.T) e2eCase {
 		// (PortBusy stays in the case type for hand-written replays only: the HTTP task
 		// retries a busy address 40 times, it is not a quick way to make a task fail)
 		switch rapid.IntRange(0, 7).Draw(t, "special") {
+		case 3:
+			// a task fails by itself (fatal receive error) some time after everything came up
+			c.FailIdx = rapid.IntRange(1, 3).Draw(t, "failidx")
+			c.FailMS = rapid.SampledFrom([]int{300, 600, 1500}).Draw(t, "failms")
+			c.Solicit, c.WaitMS = false, 0
 		case 0:
 			c.Early = true
 		case 1, 2:
@@ -1121,6 +1171,9 @@ func e2eProp(k *verifkit.Kit, id string, oracles ...e2eOracle) func(c e2eCase) e
 		}
 		if c.Early {
 			cls = append(cls, "signal-before-serve")
+		}
+		if c.FailIdx > 0 {
+			cls = append(cls, "task-fails-by-itself")
 		}
 		k.Record(c, adv >= 1, cls...)
 		once := func() error {
